@@ -12,9 +12,21 @@ MACRO_TXT = ("TLC proves NoMonitorFails on the bounded System specification (wra
              "operator that judges recorded steps; exhaustive short operation sequences and random long histories are "
              "run against macro-generated #[cache]/#[cache_async] fixtures, every sub-event is logged with the full "
              "projected state (verif-hooks inspectors) and validated by TLC.")
+KEYS_TXT = ("TLC proves the specified key construction (Keys.tla: Debug rendering joined by '|', receiver first) injective on bounded "
+            "adversarial domains of 14 signatures and refutes two mutant constructions; every tuple of those domains plus seeded "
+            "adversarial tuples is run through the real #[cache] and #[cache_async] functions, the real key is read back through "
+            "the inspector and TLC checks real key = Key(parts) and injectivity over the whole run.")
+CONC_TXT = ("The real code runs under a cooperative scheduler (parking_lot shim: every lock acquisition in unmodified cachelito-core "
+            "and in macro output is a scheduling point); schedules of short 2-3 thread programs are enumerated depth-first with a "
+            "preemption bound and sampled at random. A deadlock is reported only when the real code reaches 'some thread "
+            "unfinished, nothing grantable' and TLC confirms the wait-for cycle; every completed schedule is logged (operation "
+            "results, lock grants, state at quiescence, sequential probe) and judged by TLC (QuiesceFails, sequential monitors).")
 CLAIMS = {
   "C01": ("engine-seq+macro-seq", ENGINE_TXT + " " + MACRO_TXT, "6 C01"),
-  "C03": ("macro-seq", MACRO_TXT, "6 C03"),
+  "C02": ("keys", KEYS_TXT, "6 C02"),
+  "C03": ("macro-seq+conc", MACRO_TXT + " Concurrent clause: " + CONC_TXT, "6 C03"),
+  "C17": ("conc", CONC_TXT, "6 C17"),
+  "C18": ("conc", CONC_TXT, "6 C18"),
   "C04": ("engine-seq", ENGINE_TXT, "6 C04"),
   "C05": ("engine-seq", ENGINE_TXT, "6 C05"),
   "C06": ("engine-seq", ENGINE_TXT, "6 C06"),
@@ -26,7 +38,7 @@ CLAIMS = {
   "C12": ("macro-seq", MACRO_TXT, "6 C12"),
   "C13": ("macro-seq", MACRO_TXT, "6 C13"),
   "C14": ("macro-seq", MACRO_TXT, "6 C14"),
-  "C15": ("macro-seq", MACRO_TXT, "6 C15"),
+  "C15": ("macro-seq+conc", MACRO_TXT + " Concurrent clause: " + CONC_TXT, "6 C15"),
   "C16": ("engine-seq", ENGINE_TXT, "6 C16"),
 }
 EXTRA = {}
@@ -72,6 +84,10 @@ m = {"version": 1,
           "serves_properties": sorted(p for p, c in CLAIMS.items() if "engine-seq" in c[0]), "kind_free_text": "TLA+ spec + TLC; Rust conformance harness at the core API level"},
          {"name": "macro-seq", "path": "spec/SysMonitors.tla spec/System.tla spec/SystemMC.tla spec/Trace.tla harness/src/macrodrv.rs harness/src/macrorun.rs harness/src/fixtures_gen.rs",
           "serves_properties": sorted(p for p, c in CLAIMS.items() if "macro-seq" in c[0]), "kind_free_text": "TLA+ spec + TLC; Rust conformance harness over macro-generated fixtures (verif-hooks inspectors)"},
+         {"name": "keys", "path": "spec/Keys.tla spec/KeysMC.tla spec/KeysTrace.tla harness/src/keyfix.rs lib/key_scripts.py",
+          "serves_properties": ["C02"], "kind_free_text": "TLA+ spec of key rendering + TLC; key fixtures of 15 signatures (sync+async, methods)"},
+         {"name": "conc", "path": "harness/shim/parking_lot harness/src/conc.rs spec/SysMonitors.tla (QuiesceFails, GenuineDeadlock) spec/Trace.tla lib/conc_checks.py",
+          "serves_properties": ["C03", "C15", "C17", "C18"], "kind_free_text": "schedule exploration of the real code under a lock-granular cooperative scheduler; TLC judges the records"},
      ] + EXTRA.get("engines", []),
      "checks": checks,
      "not_applicable": na,
